@@ -35,6 +35,9 @@ import (
 
 	"reduction.dev/reduction/config"
 	"reduction.dev/reduction/connectors"
+	"reduction.dev/reduction/dkv"
+	"reduction.dev/reduction/dkv/recovery"
+	"reduction.dev/reduction/dkv/storage"
 	"reduction.dev/reduction/jobs"
 	"reduction.dev/reduction/proto"
 	"reduction.dev/reduction/proto/jobpb"
@@ -54,6 +57,8 @@ type c14Cluster struct {
 	post     map[int][]string // per key: records handled since the restart
 	restored bool
 	problem  string
+	scratch  int
+	keep     []any
 }
 
 func c14ClusterNewJob(w *c01World, n int, savepointURI string) error {
@@ -304,6 +309,32 @@ func (c *c14Cluster) restart(m int, wipe bool) string {
 	c.post = map[int][]string{}
 	if err := c14ClusterNewJob(w, m, c.spURI); err != nil {
 		return "start-from-savepoint-failed " + c14Short(err.Error())
+	}
+	// read everything the restored handles reference in the foreground first: a real operator reads tables from its
+	// event loop and compacts in the background, where a missing file would take the whole process down
+	w.mu.Lock()
+	job := w.job
+	w.mu.Unlock()
+	if ck := job.VerifStoreC15().CurrentCheckpoint(); ck != nil {
+		for _, o := range ck.GetOperatorCheckpoints() {
+			c.scratch++
+			res := func() (res string) {
+				defer func() {
+					if p := recover(); p != nil {
+						res = "panic " + c14Short(fmt.Sprint(p))
+					}
+				}()
+				db := dkv.Open(dkv.DBOptions{FileSystem: storage.NewLocalFilesystem(filepath.Join(w.dir, fmt.Sprintf("scratch-%d", c.scratch)))},
+					[]recovery.CheckpointHandle{{CheckpointID: o.CheckpointId, URI: o.DkvFileUri}})
+				c.keep = append(c.keep, db)
+				return c14Scan(db)
+			}()
+			if strings.HasPrefix(res, "panic") || strings.HasPrefix(res, "error") {
+				return "restored-state-unreadable " + o.OperatorId + ": " + res
+			}
+		}
+	} else {
+		return "no-checkpoint-loaded-from-savepoint"
 	}
 	for i := 0; i < m; i++ {
 		w.newWorker()
